@@ -30,8 +30,13 @@ def solo_guards(prog):
             if e.isidentifier():
                 use.setdefault(e, []).append(len(entries))
             else:
-                for n in match.Ref.__init__.__globals__["_expr_names"](e):
-                    use.setdefault(n, []).append(99)
+                names_ = match.Ref.__init__.__globals__["_expr_names"](e)
+                simple_cmp = (len(names_) == 2 and len(e.split()) == 3
+                              and e.split()[1] in ("==", "!=", ">", "<="))
+                for n in names_:
+                    # a comparison has no short-circuit: both operands are always evaluated, so an
+                    # operand of a comparison that is the transition's only guard entry is 'solo' too
+                    use.setdefault(n, []).append(len(entries) if simple_cmp else 99)
     names = {n for n, ls in use.items() if all(x == 1 for x in ls)}
     provs = {}
     for c in prog["cbs"]:
@@ -131,7 +136,7 @@ class C04(Campaign):
                          sends_per=(1, 2), sends_jlt=(1, 2), allow=[False, False, True],
                          rtc=[True, True, False], p_validator=0.35, p_unknown_event=0.05, n_ops=(3, 10),
                          p_action=0.45, p_state_action=0.4, p_conv=0.3, states=(2, 4), extra_trans=(0, 4),
-                         p_cond=0.4, p_unless=0.2, p_prop_guard=0.15)
+                         p_cond=0.4, p_unless=0.2, p_prop_guard=0.15, p_expr_guard=0.15)
 
     def scenario(self, rnd, tier):
         sc = super().scenario(rnd, tier)
@@ -218,7 +223,7 @@ class C04(Campaign):
                 pos = pos[:40]
                 bump("probe.crash_points_sampled_40_of_many")
             variants = []
-            classes = ["SimFault", "SimLookup", "SimValue", "SimBaseFault", "SimRuntime", "SimAttr"]
+            classes = ["SimFault", "SimLookup", "SimValue", "SimBaseFault", "SimRuntime", "SimAttr", "SimType"]
             if not any(m_.get("async") or m_.get("awaitable") for m_ in base["programs"][0]["cbs"].values()):
                 classes = classes + ["SimStop", "SimStop"]
             for p in pos:
